@@ -29,16 +29,16 @@ ASSUMPTIONS = ["set members lie within base .. base+255 (what SequenceNumberSet:
 
 
 def gen(r, tier):
-    n = {"quick": 2500, "search": 8000, "thorough": 30000}[tier]
-    nbig = {"quick": 6, "search": 10, "thorough": 40}[tier]
+    n = {"quick": 1500, "search": 6000, "thorough": 10000}[tier]
+    nbig = {"quick": 4, "search": 8, "thorough": 24}[tier]
     cases = []
     # systematic: every kind alone, both endiannesses, several draws
     for k in W.KINDS:
         for e in ("LE", "BE"):
-            for _ in range(12):
+            for _ in range(12 if tier != "quick" else 8):
                 cases.append((e, (W.rhex(r, 2), W.rhex(r, 2), W.rhex(r, 12), [W.rsub(r, k)])))
     # payload sizes around the 16-bit limit and beyond (D17), as last and as inner submessage
-    sizes = [65000, 65511, 65512, 65515, 65516, 65535 - 20, 65536 - 20, 65537 - 20, 70000, 131072 - 20, 131072, 200000]
+    sizes = [65515, 65516, 70000, 200000, 65000, 65511, 65512, 65535 - 20, 65537 - 20, 131072 - 20, 131072, 150000]
     for i in range(nbig):
         sz = sizes[i % len(sizes)] if i < len(sizes) else r.randint(60000, 200000)
         kind = "DA" if i % 3 != 2 else "DF"
